@@ -138,6 +138,15 @@ func (eng *Engine) VerifyFunction(fn *ssa.Function, con *Contract) (u *Unit) {
 				o.Fail = err.Error()
 			} else {
 				o.Goal = fmt.Sprintf("(=> %s %s)", ex.cond, t.T)
+				// cover condition (thorough tier): this exit is reachable with the clause's antecedent true
+				o.Cover = ex.cond
+				if b, ok := en.E.(*EBinary); ok && b.Op == "==>" {
+					u.mute++
+					if at, aerr := env.Eval(b.X); aerr == nil {
+						o.Cover = fmt.Sprintf("(and %s %s)", ex.cond, at.T)
+					}
+					u.mute--
+				}
 			}
 			u.addObl(o)
 		}
